@@ -124,7 +124,9 @@ func (p *Program) addFile(cf *ContractFile) {
 		if p.pkgInvs == nil {
 			p.pkgInvs = map[string][]*Clause{}
 		}
-		p.pkgInvs[cf.PkgPath] = append(p.pkgInvs[cf.PkgPath], cf.PkgInvs...)
+		for _, c := range cf.PkgInvs {
+			p.pkgInvs[c.Pkg] = append(p.pkgInvs[c.Pkg], c)
+		}
 	}
 }
 
